@@ -183,6 +183,10 @@ def explore_protocol(u, v, acc, *, follow_depth, quick, case_base, fork_mode="RE
             ops.append((["revert"], "after", 0))
             if is_ind and statemc.partial_revert_enabled(st, u.n_ind):
                 ops += [(["revert", m], "after", 0) for m in (masks if phase == "between" else masks[1:2])]
+                proper = [m for m in masks if 0 < sum(m) < len(m)]
+                if phase == "between" and proper:
+                    # the same rejections handed over as 0/1 masks of an integer dtype
+                    ops += [(["revert", proper[0], "uint8"], "after", 0), (["revert", proper[-1], "int64"], "after", 0)]
         elif phase == "after" and d < follow_depth:
             ops += [(["read", x], "after", d + 1) for x in follow if st._values[x] is None]
             # next proposal on another variable (small / extreme), then its decision
